@@ -16,7 +16,7 @@
 //!           independently re-encodes the input and evaluates the property's clauses on the fresh
 //!           blocks (oracle lines).
 //!
-//! Result line: `ok <n> <shape> <portable> <hashes> <pred> <b7>` (shape: per block mode digits, see `shape`;
+//! Result line: `ok <n> <shape> <portable> <hashes> <pred> <b7> <w7> <cl7> <w15> <cl15>` (shape: per block mode digits, see `shape`;
 //! pred: for RGBA8 inputs the bytes of each emitted block at the places the discrete encoder model predicts,
 //! `offset:hex` pieces, see `predicted_pieces`; b7: for BC7 / RGBA8 / no dithering the header fields of each emitted
 //! block, see `bc7_obs` — the model appends `@` and the constraint of its discrete rules, tools/propcfg/C13.py `equal`).
@@ -1378,6 +1378,65 @@ fn gen_bc7_internals(seed: u64, thorough: bool) -> Vec<String> {
 // ---------------------------------------------------------------------------------------------
 // run
 
+// ---------------------------------------------------------------------------------------------
+// BC1-BC5 encoder core (lean/DdsModel/DdsModel/EncBc15.lean): tokens `w15`, `cl15` of the result line
+
+/// Which 8-byte halves of a block of format `f` the model re-derives from the block's own endpoints and the ORIGINAL
+/// pixels (`cl15`; availability only - the values are the emitted bytes here and the model's bytes in the driver):
+/// `(byte offset, asserted)`.  A 5:6:5 colour half: metric Uniform, no colour dithering (BC1: no alpha dithering
+/// either - it changes the alpha map the block is compressed with).  A BC4-type half: its dither switch off - BC3 /
+/// BC3 premultiplied alpha follows ALPHA dithering, every other BC4-type half COLOUR dithering.  BC2's explicit alpha
+/// half is predicted by `pred` already.
+fn bc15_halves(f: F, o: Opts) -> Vec<(usize, bool)> {
+    let colour = o.m == 'U' && !o.dith_color();
+    match f {
+        F::Bc1 => vec![(0, colour && !o.dith_alpha())],
+        F::Bc2 | F::Bc2p => vec![(0, false), (8, colour)],
+        F::Bc3 | F::Bc3p => vec![(0, !o.dith_alpha()), (8, colour)],
+        F::Rxgb | F::Bc3n => vec![(0, !o.dith_color()), (8, colour)],
+        F::Bc4u | F::Bc4s => vec![(0, !o.dith_color())],
+        F::Bc5u | F::Bc5s => vec![(0, !o.dith_color()), (8, !o.dith_color())],
+        F::Bc7 => vec![],
+    }
+}
+
+/// `w15`: hash of every emitted BC1-BC5 block (the driver parses the block with the decoder-side readers into endpoints
+/// and indexes, writes it again with the model's writers and constructors and prints the hash of what it wrote);
+/// `cl15`: per block the hashes of the halves named by `bc15_halves`, for RGBA8 images and blocks fully inside the image.
+fn bc15_tokens(f: F, o: Opts, img: &Img, blocks: &[u8]) -> (String, String) {
+    if f == F::Bc7 {
+        return ("-".into(), "-".into());
+    }
+    let bpb = f.bpb();
+    let wb = img.blocks_w();
+    let nb = blocks.len() / bpb;
+    let w15: String = (0..nb).map(|b| format!("{:08x}", hash_block(&blocks[b * bpb..(b + 1) * bpb]))).collect();
+    if img.prec != InPrec::Rgba8 {
+        return (w15, "-".into());
+    }
+    let halves = bc15_halves(f, o);
+    let cl15 = (0..nb)
+        .map(|b| {
+            if in_image_mask(img, b % wb, b / wb) != 0xFFFF {
+                return "-".to_string();
+            }
+            halves
+                .iter()
+                .map(|&(off, on)| {
+                    if on {
+                        format!("{:08x}", hash_block(&blocks[b * bpb + off..b * bpb + off + 8]))
+                    } else {
+                        "-".to_string()
+                    }
+                })
+                .collect::<Vec<_>>()
+                .join(".")
+        })
+        .collect::<Vec<_>>()
+        .join(";");
+    (w15, cl15)
+}
+
 struct Case {
     class: String,
     f: F,
@@ -1546,7 +1605,10 @@ pub fn run(line: &str) -> Option<(String, Vec<String>)> {
     } else {
         "-".to_string()
     };
-    let res = format!("ok {nb} {shapes} {ports} {hashes} {pred} {b7} {w7} {cl7}");
+    // BC1-BC5 encoder core: every emitted block re-written by the model writers; halves re-derived from their own
+    // endpoints and the original pixels (see `bc15_tokens`)
+    let (w15, cl15) = bc15_tokens(f, o, &img, &blocks);
+    let res = format!("ok {nb} {shapes} {ports} {hashes} {pred} {b7} {w7} {cl7} {w15} {cl15}");
 
     // oracle: fresh encode
     match lib_encode(f, o, &img) {
